@@ -32,6 +32,7 @@ from dask_expr._expr import (
     Blockwise,
     Expr,
     Index,
+    PartitionsFiltered,
     Projection,
     RenameFrame,
     RenameSeries,
@@ -991,12 +992,25 @@ class Len(Reduction):
     def _simplify_down(self):
         from dask_expr.io.io import IO
 
+        def selected(expr):
+            # A node that computes a selection of its partitions only has
+            # another length than its input
+            return isinstance(expr, PartitionsFiltered) and expr._filtered
+
         # We introduce Index nodes sometimes.  We special case around them.
-        if isinstance(self.frame, Index) and self.frame.frame._is_length_preserving:
+        if (
+            isinstance(self.frame, Index)
+            and self.frame.frame._is_length_preserving
+            and not selected(self.frame.frame)
+        ):
             return Len(self.frame.frame)
 
         # Pass through Elemwises, unless we just introduced an Index
-        if self.frame._is_length_preserving and not isinstance(self.frame, Index):
+        if (
+            self.frame._is_length_preserving
+            and not isinstance(self.frame, Index)
+            and not selected(self.frame)
+        ):
             child = max(self.frame.dependencies(), key=lambda expr: expr.npartitions)
             return Len(child)
 
